@@ -27,6 +27,8 @@ Qed.
 Section Bounds.
   Variable cap : nat.
   Hypothesis OK : slots_ok cap = true.
+  Variable bsz : nat.
+  Hypothesis Hbsz : cap < bsz.
 
   Definition Aux := unit.
   Definition view (a : Aux) (t : nat) : unit := tt.
@@ -122,7 +124,7 @@ Section Bounds.
   Qed.
   Lemma ok_push_top t : body_ok (body_push_top t).
   Proof. intros g Hg. unfold body_push_top. destruct (tag_eqb _ _); okfin Hg. Qed.
-  Lemma ok_child p c : body_ok (body_child cap p c).
+  Lemma ok_child p c : body_ok (body_child bsz p c).
   Proof.
     intros g Hg. unfold body_child. destruct (tag_eqb _ _); [okfin Hg|]. destruct (Nat.ltb _ _); [okfin Hg|].
     destruct (ok_cmp_swap p c g Hg) as (K1 & K2 & K3). destruct (cmp_swap p c g) as [[g' v] es]. cbn [fst snd verr] in *. auto.
@@ -143,7 +145,7 @@ Section Bounds.
   Proof. rewrite bc_st. apply Nat2Z.id. Qed.
 
   (** P1: inc() only below the capacity; the slot is inside the buffer *)
-  Lemma ok_push_size : body_ok (body_push_size cap).
+  Lemma ok_push_size : body_ok (body_push_size cap bsz).
   Proof.
     intros g [C1 C2]. unfold body_push_size. set (n := count g) in *.
     destruct (Z.leb (Z.of_nat cap) (bc (ctr g))) eqn:E; [cbn [fst snd verr forallb]; repeat split; try assumption; try reflexivity; lia|].
@@ -154,11 +156,11 @@ Section Bounds.
     split; [|split; [reflexivity|]].
     - unfold C_ok, count. cbn [ctr set_ctr]. rewrite Ec, count_st'. split; [reflexivity|lia].
     - rewrite Es. pose proof (slot_range cap OK (S n) ltac:(lia)).
-      assert (Hin : Nat.ltb (slot (S n)) (bufsize cap) = true) by (apply Nat.ltb_lt; unfold bufsize; lia). rewrite Hin. lia.
+      assert (Hin : Nat.ltb (slot (S n)) bsz = true) by (apply Nat.ltb_lt; lia). rewrite Hin. lia.
   Qed.
 
   (** Q1: dec() only above zero; the bottom slot is inside the buffer *)
-  Lemma ok_pop_size : body_ok (body_pop_size cap).
+  Lemma ok_pop_size : body_ok (body_pop_size bsz).
   Proof.
     intros g [C1 C2]. unfold body_pop_size. set (n := count g) in *.
     destruct (Z.eqb (bc (ctr g)) 0) eqn:E; [cbn [fst snd verr forallb]; repeat split; try assumption; try reflexivity; lia|].
@@ -170,7 +172,7 @@ Section Bounds.
     split; [|split; [reflexivity|]].
     - unfold C_ok, count. cbn [ctr set_ctr]. rewrite Ec, count_st'. split; [reflexivity|lia].
     - rewrite Es. pose proof (slot_range cap OK n ltac:(lia)).
-      assert (Hin : Nat.ltb (slot n) (bufsize cap) = true) by (apply Nat.ltb_lt; unfold bufsize; lia). rewrite Hin. lia.
+      assert (Hin : Nat.ltb (slot n) bsz = true) by (apply Nat.ltb_lt; lia). rewrite Hin. lia.
   Qed.
 
   (** *** the programs *)
@@ -183,9 +185,9 @@ Section Bounds.
       apply usafe_unlock; [apply ok_none|]. intros _. exact I.
   Qed.
 
-  Lemma usafe_heapify_pop lf t : forall hf p c, safe t (heapify_pop hf lf cap p c) tt QT.
+  Lemma usafe_heapify_pop lf t : forall hf p c, safe t (heapify_pop hf lf bsz p c) tt QT.
   Proof.
-    induction hf as [|hf IH]; intros p c; [exact I|]. cbn [heapify_pop]. destruct (Nat.ltb c (bufsize cap)).
+    induction hf as [|hf IH]; intros p c; [exact I|]. cbn [heapify_pop]. destruct (Nat.ltb c bsz).
     - apply usafe_lock; [apply ok_child|]. intros v. destruct (vn v) as [|[|[|n]]].
       + apply usafe_unlock; [apply ok_none|]. intros _. apply usafe_unlock; [apply ok_none|]. intros _. exact I.
       + apply usafe_lock; [apply ok_right|]. intros w. apply usafe_unlock; [apply ok_cmp_swap|]. intros u. destruct (vb u).
@@ -196,7 +198,7 @@ Section Bounds.
     - apply usafe_unlock; [apply ok_none|]. intros _. exact I.
   Qed.
 
-  Lemma usafe_push hf lf t u x : safe t (push cap hf lf u x) tt QT.
+  Lemma usafe_push hf lf t u x : safe t (push cap bsz hf lf u x) tt QT.
   Proof.
     unfold push. apply usafe_lock; [apply ok_push_size|]. intros v. destruct (vb v).
     - apply usafe_unlock; [apply ok_none|]. intros _. exact I.
@@ -205,7 +207,7 @@ Section Bounds.
       eapply Conc.safe_weaken; [|apply usafe_heapify_push]. intros [[]|] [] _; exact I.
   Qed.
 
-  Lemma usafe_pop hf lf t : safe t (pop cap hf lf) tt QT.
+  Lemma usafe_pop hf lf t : safe t (pop bsz hf lf) tt QT.
   Proof.
     unfold pop. apply usafe_lock; [apply ok_pop_size|]. intros v. destruct (vb v).
     - apply usafe_unlock; [apply ok_none|]. intros _. exact I.
@@ -218,21 +220,21 @@ Section Bounds.
         * unfold obind. apply Conc.safe_bind. eapply Conc.safe_weaken; [|apply usafe_heapify_pop]. intros [[]|] [] _; exact I.
   Qed.
 
-  Lemma usafe_run_op hf lf t u o : safe t (run_op cap hf lf u o) tt QT.
+  Lemma usafe_run_op hf lf t u o : safe t (run_op cap bsz hf lf u o) tt QT.
   Proof.
     destruct o as [x|]; cbn [run_op]; (apply usafe_emit; [reflexivity|]); apply Conc.safe_bind.
     - eapply Conc.safe_weaken; [|apply usafe_push]. intros [b|] [] _; (apply usafe_emit; [reflexivity|exact I]).
     - eapply Conc.safe_weaken; [|apply usafe_pop]. intros [[x|]|] [] _; (apply usafe_emit; [reflexivity|exact I]).
   Qed.
 
-  Lemma usafe_run_ops hf lf t u os : safe t (run_ops cap hf lf u os) tt (@Conc.QTrue unit).
+  Lemma usafe_run_ops hf lf t u os : safe t (run_ops cap bsz hf lf u os) tt (@Conc.QTrue unit).
   Proof.
     induction os as [|o r IH]; cbn [run_ops]; [exact I|]. apply Conc.safe_bind.
     eapply Conc.safe_weaken; [|apply usafe_run_op]. intros [|] [] _; [exact IH|exact I].
   Qed.
 
   Lemma usafe_threads hf lf ths : forall k t p,
-    nth_error (thread_progs cap hf lf k ths) t = Some p -> safe t p tt (@Conc.QTrue unit).
+    nth_error (thread_progs cap bsz hf lf k ths) t = Some p -> safe t p tt (@Conc.QTrue unit).
   Proof.
     induction ths as [|os r IH]; intros k t p H; [destruct t; discriminate|]. destruct t as [|t]; cbn in H.
     - inversion H as [E0]. unfold thread_prog. cbn [Conc.safe]. intros g a tr [I1 I2] _. cbn [a_begin fst snd]. exists a.
@@ -253,7 +255,7 @@ Section Bounds.
       apply (G (S t)). apply (IH (S k) t p H).
   Qed.
 
-  Lemma init_ok hf lf ths : Conc.cfg_ok view BInv (init_cfg cap hf lf ths).
+  Lemma init_ok hf lf ths : Conc.cfg_ok view BInv (init_cfg cap bsz hf lf ths).
   Proof.
     exists tt. split.
     - split; [split; [reflexivity|cbn; lia]|intros te []].
@@ -261,15 +263,15 @@ Section Bounds.
   Qed.
 
   Theorem mspq_no_out_of_bounds hf lf ths c :
-    Conc.reach (init_cfg cap hf lf ths) c -> no_oob (Conc.trace c).
+    Conc.reach (init_cfg cap bsz hf lf ths) c -> no_oob (Conc.trace c).
   Proof. intros Hr. destruct (Conc.reach_Inv (init_ok hf lf ths) Hr) as (a & _ & H). exact H. Qed.
 End Bounds.
 
 Corollary mspq_no_oob_event cap :
-  slots_ok cap = true ->
-  forall hf lf ths c, Conc.reach (init_cfg cap hf lf ths) c ->
+  slots_ok cap = true -> forall bsz, cap < bsz ->
+  forall hf lf ths c, Conc.reach (init_cfg cap bsz hf lf ths) c ->
   forall te, In te (Conc.trace c) -> is_cli "ub_oob" (snd te) = false.
 Proof.
-  intros OK hf lf ths c Hr te Hin. pose proof (mspq_no_out_of_bounds cap OK hf lf ths c Hr te Hin) as H.
+  intros OK bsz Hbsz hf lf ths c Hr te Hin. pose proof (mspq_no_out_of_bounds cap OK bsz Hbsz hf lf ths c Hr te Hin) as H.
   unfold not_oob in H. destruct (is_cli "ub_oob" (snd te)); [discriminate|reflexivity].
 Qed.
